@@ -168,6 +168,19 @@ def r2(ctx, rep):
     for m in flt:
         if m["a"] and m["a"][0].get("k") == "closure":
             preds.append(pred_of(m["a"][0]["body"]))
+        elif m["a"] and m["a"][0].get("k") == "path":
+            # a predicate passed by name: a nested fn of ident_part, a local closure, or a private function of the same file
+            nm = last_seg(m["a"][0]["p"])
+            body = None
+            for x in walk(ip["body"]):
+                if x.get("k") == "item_fn" and x.get("name") == nm and "body" in x:
+                    body = tail_expr(x["body"])
+                if x.get("k") == "local" and x["pat"].get("k") == "p_ident" and x["pat"]["n"] == nm and x.get("init") is not None and x["init"].get("k") == "closure":
+                    body = x["init"]["body"]
+            if body is None:
+                hs = [h for h in syn.fns if h["crate"] == ip["crate"] and h["file"] == ip["file"] and h["name"] == nm and "body" in h]
+                body = tail_expr(hs[0]["body"]) if len(hs) == 1 else None
+            preds.append(pred_of(body) if body is not None else None)
     if len(preds) < 2 or any(p is None for p in preds[:2]):
         raise AnchorMissing("lexer::ident_part: expected two `.filter(|c| ..)` character predicates")
     lex_first, lex_rest = preds[0], preds[1]
@@ -256,41 +269,40 @@ def _inner_match(syn, owner, body):
 
 
 def fmt_tables(syn):
+    """The formatter's strength and associativity per expression kind and per binary operator, read by *selecting the arm* each constructed
+    value takes (matcheval): nested or flattened matches and per-operator helpers give the same table."""
+    import matcheval as ME
     f = syn.fn("codegen::ast::binding_strength", crate="prqlc")
-    outer = tables.first_match(f, "expr")
-    kinds, ops = {}, {}
-    default = None
-    for arm in outer["arms"]:
-        for alt in pat_alts(arm["pat"]):
-            h = pat_head(alt)
-            body = arm["body"]
-            if isinstance(h, str) and last_seg(h) == "Binary":
-                inner = _inner_match(syn, f, body)
-                for head, g, b, line, _ in tables.match_rows(inner):
-                    if isinstance(head, str) and head != "_":
-                        ops[last_seg(head)] = tables.arm_value(b)
-            elif h == "_":
-                default = tables.arm_value(body)
-            elif isinstance(h, str):
-                kinds[last_seg(h)] = tables.arm_value(body)
     a = syn.fn("codegen::ast::associativity", crate="prqlc")
-    aouter = tables.first_match(a, "expr")
-    assoc, adefault, kind_default = {}, None, None
-    for arm in aouter["arms"]:
-        for alt in pat_alts(arm["pat"]):
-            h = pat_head(alt)
-            if isinstance(h, str) and last_seg(h) == "Binary":
-                inner = _inner_match(syn, a, arm["body"])
-                for head, g, b, line, _ in tables.match_rows(inner):
-                    v = tables.arm_value(b)
-                    v = last_seg(v[1]) if isinstance(v, tuple) else v
-                    if head == "_":
-                        adefault = v
-                    elif isinstance(head, str):
-                        assoc[last_seg(head)] = v
-            elif h == "_":
-                v = tables.arm_value(arm["body"])
-                kind_default = last_seg(v[1]) if isinstance(v, tuple) else v
+    binop = syn.adt("BinOp", crate="prqlc_parser")
+    ekind = syn.adt("ExprKind", crate="prqlc_parser")
+
+    def value_of(fn, val):
+        prm = fn["params"][0]["name"]
+        try:
+            leaf = ME.select(fn["body"], {prm: val}, syn, fn)
+        except ME.Unknown as e:
+            raise AnchorMissing(f"{fn['path']}: cannot select the arm for {val} ({e})")
+        return tables.arm_value(leaf)
+
+    def pathval(v):
+        return last_seg(v[1]) if isinstance(v, tuple) else v
+    kinds, ops, assoc = {}, {}, {}
+    for kv in tables.enum_variants(ekind):
+        if kv == "Binary":
+            continue
+        kinds[kv] = value_of(f, ME.V(kv))
+    for op in tables.enum_variants(binop):
+        val = ME.V("Binary", args=[ME.V("BinaryExpr", fields={"op": ME.V(op)})])
+        ops[op] = value_of(f, val)
+        assoc[op] = pathval(value_of(a, val))
+    # defaults: the value of the kinds without an arm of their own (most common value), kept for the callers that ask for them
+    from collections import Counter
+    default = Counter(kinds.values()).most_common(1)[0][0] if kinds else None
+    kinds = {k_: v for k_, v in kinds.items() if v != default}
+    adefault = Counter(assoc.values()).most_common(1)[0][0] if assoc else None
+    kd = {kv: pathval(value_of(a, ME.V(kv))) for kv in tables.enum_variants(ekind) if kv != "Binary"}
+    kind_default = Counter(kd.values()).most_common(1)[0][0] if kd else None
     return f, a, kinds, ops, default, assoc, adefault, kind_default
 
 
@@ -403,9 +415,11 @@ def r3(ctx, rep):
     # write_within raises the context to the parent's strength; Binary sets the side
     ww = syn.fn("codegen::ast::write_within", crate="prqlc")
     Aw = __import__("alpha").Inliner(ww)
-    asg = [Aw.show(n["rhs"]) for n in walk(ww["body"]) if n.get("k") == "assign" and show(n["lhs"]).endswith(".context_strength")]
-    rep.check(len(asg) == 1 and re.fullmatch(r"(\w+)\.context_strength\.max\(binding_strength\(parent\)\)", asg[0]) is not None,
-              "write_within", "write_within must raise the context strength to the parent's strength", file=ww["file"], line=ww["l"], fn=ww["path"])
+    import guards as _gw
+    parw = _gw.parents(ww["body"])
+    asg = [assigned_value(n, parw, Aw) for n in walk(ww["body"]) if n.get("k") == "assign" and show(n["lhs"]).endswith(".context_strength")]
+    rep.check(asg == ["max:binding_strength(parent)"],
+              "write_within", f"write_within must raise the context strength to the parent's strength (found {asg})", file=ww["file"], line=ww["l"], fn=ww["path"])
     wk = [x for x in syn.find_fns("<ExprKind as WriteSource>::write", crate="prqlc")]
     if len(wk) != 1:
         raise AnchorMissing("<ExprKind as WriteSource>::write")
@@ -610,16 +624,7 @@ def r7(ctx, rep):
                     if m:
                         out[v["name"]] = m.group(1)
         return out
-    mc = syn.fn("lexer::multi_char_operators", crate="prqlc_parser")
-    multi = {}
-    for n in walk(mc["body"]):
-        if n.get("k") == "mcall" and n["m"] == "to" and n["a"]:
-            # just("==").to(TokenKind::Eq) possibly with then_ignore in between
-            base = n["r"]
-            while base.get("k") == "mcall":
-                base = base["r"]
-            if base.get("k") == "call" and last_seg(show(base["f"])) == "just":
-                multi[lit_val(base["a"][0])] = last_seg(show(n["a"][0]))
+    mc, multi = tables.lexer_multi_char_ops(syn)
     tk = syn.fn("lexer::token", crate="prqlc_parser")
     ctrl_chars = ""
     for c in calls(tk["body"], "one_of"):
@@ -767,8 +772,9 @@ def r9(ctx, rep):
             if n.get("k") == "assign" and show(n["lhs"]).split(".")[-1] in ("unbound_expr", "context_strength"):
                 if Af is None:
                     Af = __import__("alpha").Inliner(f)
-                writers.add((f["path"].split("::", 1)[1], show(n["lhs"]).split(".")[-1], Af.show(n["rhs"])))
-    want = {("codegen::ast::write_within", "context_strength", "opt.context_strength.max(binding_strength(parent))"),
+                    parf = __import__("guards").parents(f["body"])
+                writers.add((f["path"].split("::", 1)[1], show(n["lhs"]).split(".")[-1], assigned_value(n, parf, Af)))
+    want = {("codegen::ast::write_within", "context_strength", "max:binding_strength(parent)"),
             ("codegen::ast::<ExprKind as WriteSource>::write", "context_strength", "10"),     # default value of a named parameter: read like an argument
             ("codegen::ast::<Expr as WriteSource>::write", "unbound_expr", "false"),          # after `alias = `
             ("codegen::ast::<ExprKind as WriteSource>::write", "unbound_expr", "true"),       # arguments of a function call
@@ -776,7 +782,7 @@ def r9(ctx, rep):
             ("codegen::ast::<Expr as WriteSource>::write", "context_strength", "0"),          # inside the parentheses of `(alias = expr)` (R14)
             ("codegen::ast::<Expr as WriteSource>::write", "unbound_expr", "false"),
             ("codegen::ast::<Stmt as WriteSource>::write", "context_strength", "0"),          # inside the parentheses of `@( .. )` (R14)
-            ("codegen::ast::<SwitchCase as WriteSource>::write", "context_strength", "opt.context_strength.max(8)"),   # case arms are read as calls (R14)
+            ("codegen::ast::<SwitchCase as WriteSource>::write", "context_strength", "max:8"),   # case arms are read as calls (R14)
             ("codegen::WriteSource::write_between", "unbound_expr", "false")}
     for w in sorted(writers - want):
         rep.bad(f"layout-writer:{w[0]}:{w[1]}={w[2]}", f"{w[0]} sets `{w[1]} = {w[2]}`: this flag decides whether a leading unary operator needs parentheses (`f (-a) + b`) / which parentheses are dropped; "
@@ -785,6 +791,33 @@ def r9(ctx, rep):
         rep.bad(f"layout-writer-missing:{w[0]}:{w[1]}={w[2]}", f"the reviewed writer `{w[1]} = {w[2]}` in {w[0]} is gone")
     for w in sorted(want & writers):
         rep.ok(f"layout-writer:{w[0]}:{w[1]}={w[2]}")
+
+
+def assigned_value(n, par, A):
+    """Canonical value of the assignment `n` (lhs = rhs): `max:<v>` for "raise lhs to at least v" in any spelling (`x = x.max(v)`, `x = v.max(x)`,
+    `x = max(x, v)`, `if v > x { x = v }`, `if x < v { x = v }`), else the rendered right-hand side (locals inlined)."""
+    L = show(n["lhs"])
+    r = n["rhs"]
+    if r.get("k") == "mcall" and r["m"] == "max" and len(r["a"]) == 1:
+        a, b = show(r["r"]), show(r["a"][0])
+        if a == L:
+            return "max:" + A.show(r["a"][0])
+        if b == L:
+            return "max:" + A.show(r["r"])
+    if r.get("k") == "call" and last_seg(show(r["f"])) == "max" and len(r["a"]) == 2:
+        a, b = show(r["a"][0]), show(r["a"][1])
+        if a == L:
+            return "max:" + A.show(r["a"][1])
+        if b == L:
+            return "max:" + A.show(r["a"][0])
+    p_ = par.get(id(n))
+    if p_ is not None and p_.get("k") == "block" and len(p_["s"]) == 1:
+        q = par.get(id(p_))
+        if q is not None and q.get("k") == "if" and q.get("e") is None and q["t"] is p_ and q["c"].get("k") == "bin" and q["c"]["op"] in (">", "<", ">=", "<="):
+            lo, hi = (q["c"]["rhs"], q["c"]["lhs"]) if q["c"]["op"] in (">", ">=") else (q["c"]["lhs"], q["c"]["rhs"])
+            if show(lo) == L and show(hi) == show(r):
+                return "max:" + A.show(r)
+    return A.show(r)
 
 
 def r10(ctx, rep):
